@@ -144,6 +144,11 @@ def draw_program(draw):
         elif k == 6 and nv > 1 and draw(st.integers(0, 5)) == 0:
             # the proving step is run by hand in the middle of the script (and again at exit, over the whole trace)
             main.append(["prove"])
+        elif k == 5 and draw(st.integers(0, 6)) == 0:
+            # a sub-circuit call that fails half-way (the body raises after tracing something), caught by the program, which then
+            # calls the same function again, successfully
+            main.append(["flaky", draw(st.integers(0, nv - 1))])
+            nv += 1
         elif k == 7 and draw(st.integers(0, 5)) == 0:
             # a sub-circuit call inside a region guarded by a secret condition of the CALLER (value 0 or 1); the body asserts
             # something that holds for the live call and fails for the dead one
@@ -234,6 +239,8 @@ def render(prog):
         fun(f, pyname(f), prog["funcs"])
     if prog["clash"]:
         fun(prog["clash"]["func"], pyname(prog["clash"]["func"]) + "_alt", prog["funcs"])
+    if any(s[0] == "flaky" for s in prog["main"]):
+        L += ['@qb.subqap("flaky")', "def flaky(a, fail):", "    t = a * a", "    if fail: raise RuntimeError('boom')", "    return t * a", ""]
     if any(s[0] == "gcall" for s in prog["main"]):
         L += ['@qb.subqap("chkzero")', "def chk_zero(a):", "    a.assert_zero()", "    return a * a", ""]
     v = []
@@ -253,6 +260,11 @@ def render(prog):
             L.append("%s.val()" % v[s[1]])
         elif s[0] == "prove":
             L.append("try:\n    qb.prove()\nexcept Exception as e_:\n    print('early prove:', type(e_).__name__, e_, file=sys.stderr)")
+        elif s[0] == "flaky":
+            L.append("try:\n    flaky(%s, True)\nexcept RuntimeError:\n    pass" % v[s[1]])
+            L.append('CALLS.append(["flaky", 1, 1])')
+            L.append("%s = flaky(%s, False)" % (nm, v[s[1]]))
+            v.append(nm)
         elif s[0] == "gcall":
             L.append("rt.guarded(PrivVal(%d))(lambda: chk_zero(%s - %s + %d))()" % (s[2], v[s[1]], v[s[1]], 0 if s[2] else 3))
         else:
@@ -303,6 +315,12 @@ def analyse(prog, tmp, r):
             return None, info
         return ("a sub-circuit multiplied one of its values with a value of its caller that was not passed as an argument; the "
                 "equation over wires of two contexts was not refused (no 'Inconsistent contexts')"), info
+    if any(s[0] == "flaky" for s in prog["main"]):
+        info["failed_call"] = True
+        if "Inconsistent contexts" in r.stderr:
+            # today an abandoned call leaves the backend inside the callee's context and the splitting step reports it
+            info["mixed_contexts_refused"] = True
+            return None, info
     if any(s[0] == "gcall" for s in prog["main"]):
         info["guarded_call"] = True
         if "Inconsistent contexts" in r.stderr:
@@ -525,6 +543,8 @@ def shard(seed, n_examples):
                 labels.append("sub-circuit-call-under-a-guard-of-the-caller")
             if any(s_[0] == "prove" for s_ in prog["main"]):
                 labels.append("proving-step-run-twice")
+            if info.get("failed_call"):
+                labels.append("sub-circuit-call-failed-and-repeated")
             if info["after_last_pub"]:
                 labels.append("constraint-after-last-public-value")
             stats.case(prog if nt else None, nt, labels)
